@@ -415,6 +415,7 @@ func TestC18(t *testing.T) {
 	vfkInformer(r)
 	r.Set("k8s_informer_wall_s", time.Since(t0).Seconds())
 
+	r.Set("exhaustive_subspace", "all sequences up to k8s_max_sequence_length over k8s_alphabet in handlers mode; informer mode is a seeded sample")
 	r.Require("k8s_handler_sequences", r.Counter("k8s_handler_sequences"), 10000)
 	r.Require("k8s_calls_created", r.Counter("calls_C"), 1000)
 	r.Require("k8s_calls_updated", r.Counter("calls_U"), 1000)
